@@ -133,7 +133,14 @@ def _check_one(spec, method, args, kmask, kvals, extra, xv):
             kwargs["p%d" % i] = kvals[j]
     if extra:
         # a surplus keyword; for methods it may be spelled like the (already bound) first parameter
-        kwargs["self" if (method and xv < 0) else "zz"] = xv
+        # ... or like the signature's own *va / **vk parameters (it can only land in **vk)
+        if xv < -100:
+            xname = "va"
+        elif xv < 0:
+            xname = "self" if method else "vk"
+        else:
+            xname = "zz"
+        kwargs[xname] = xv
     args = tuple([a for a in args])      # realises the *length*; the values stay symbolic
     # The oracle only moves values around: it runs natively on the (now concrete) call shape with the
     # symbolic values as opaque objects.
@@ -228,6 +235,87 @@ def ob_bind(sel: int, args: List[int], k0: bool, k1: bool, k2: bool, k3: bool, k
     return H.verdict(ok)
 
 
+class _AlwaysEqual:
+    """Compares equal to everything (unittest.mock.ANY)."""
+
+    def __eq__(self, other):
+        return True
+
+    def __ne__(self, other):
+        return False
+
+    __hash__ = object.__hash__
+
+
+class _ElementWise:
+    """Comparisons give an element-wise result without a truth value (numpy arrays, pandas objects)."""
+
+    def __eq__(self, other):
+        return _NoTruth()
+
+    def __ne__(self, other):
+        return _NoTruth()
+
+    __hash__ = object.__hash__
+
+
+class _NoTruth:
+    def __bool__(self):
+        raise ValueError("The truth value of an element-wise comparison is ambiguous")
+
+
+_ODD = [_AlwaysEqual(), _ElementWise()]
+
+
+def _odd_funcs(d):
+    def f0(a, b=d):
+        pass
+
+    def f1(a, /, b=d):
+        pass
+
+    def f2(a, *, b=d):
+        pass
+
+    def f3(a, b=d, *va, c=d, **vk):
+        pass
+    return [f0, f1, f2, f3]
+
+
+def ob_odd_defaults(di: int, fi: int, shape: int) -> bool:
+    """
+    pre: 0 <= di <= 1
+    pre: 0 <= fi <= 3
+    pre: 0 <= shape <= 3
+    post: _
+    """
+    H.enter()
+    # default values are only ever *stored*: the binding must not depend on how they compare
+    d, k, sh = _ODD[H.select(di, 0, 1)], H.select(fi, 0, 3), H.select(shape, 0, 3)
+    with H.native():
+        from joblib.func_inspect import filter_args
+        f = _odd_funcs(d)[k]
+        args, kwargs = [((1,), {}), ((1,), {"b": 5}), ((1, 5), {}), ((), {"a": 1})][sh]
+        try:
+            ba = inspect.signature(f).bind(*args, **kwargs)
+        except TypeError:
+            H.assume(False)
+        ba.apply_defaults()
+        try:
+            got = filter_args(f, [], list(args), dict(kwargs))
+        except Exception as e:
+            return H.verdict(False, "%s%s called with %r %r: %s: %s" % (f.__name__, inspect.signature(f), args, kwargs,
+                                                                         type(e).__name__, e))
+        ok = True
+        for nm, p in inspect.signature(f).parameters.items():
+            if p.kind in (p.VAR_POSITIONAL, p.VAR_KEYWORD):
+                continue
+            if nm not in got or got[nm] is not ba.arguments[nm] and not (type(got[nm]) is int and got[nm] == ba.arguments[nm]):
+                ok = False
+        return H.verdict(ok, "%s%s called with %r %r: got %r, Python binds %r" % (
+            f.__name__, inspect.signature(f), args, kwargs, got, dict(ba.arguments)))
+
+
 def validate():
     """The repository's own filter_args test inputs through the oracle."""
     out = []
@@ -267,6 +355,9 @@ def obligations(tier, seed):
         plan = [("le3", base, False, 16), ("boundary45", extra, False, 4), ("methods_le2", all_sigs(2), True, 16)]
     else:
         plan = [("le5", all_sigs(5), False, 8), ("methods_le4", all_sigs(4), True, 8)]
+    obs.append({"name": "odd_defaults", "fn": "ob_odd_defaults", "mode": "S", "timeout": 120,
+                "bounds": "defaults that compare equal to everything / element-wise (no truth value) in positional-or-keyword, "
+                          "positional-only, keyword-only position and next to *args/**kwargs; 4 call shapes"})
     for label, sigs, method, size in plan:
         for gi, g in enumerate(_groups(sigs, size)):
             obs.append({"name": "bind/%s/%s%03d" % (label, "m" if method else "f", gi), "fn": "ob_bind",
